@@ -43,7 +43,7 @@ def gen_case(rng):
 
 
 def cases(rng, tier):
-    n = 120 if tier == 'quick' else 3000
+    n = 300 if tier == 'quick' else 3000
     return [gen_case(rng) for _ in range(n)]
 
 
